@@ -3,6 +3,7 @@ import TabulaModel.Model.Layout
 import TabulaModel.Model.LayoutOrder
 import TabulaModel.Model.LayoutText
 import TabulaModel.Model.LayoutApi
+import TabulaModel.Model.LayoutGaps
 /-!
 Line protocol of C09 (see harness/c09/c09.go).
 
@@ -38,6 +39,12 @@ four candidate texts), `c09.analyze rtl gaps tols tolAll bits F`
 ((*Analyzer).Analyze: columns, reading order, lines, paragraphs), `c09.doctext T;T;…` (page
 texts joined), `c09.doccat name P;P;…` (per-page result lists appended; P = hex texts joined by `|`,
 `~` = none).
+
+Resource bounds (C02 repairs daef69b, 988a551, 541d4a6): `c09.preservex cw lh0 F`
+(extractPreserveLayout byte for byte, padding included: `preserveLayoutGo`; cw = charWidth, lh0 =
+charWidth*1.2 as exact rationals of the float64 values), `c09.gaps W F` (findVerticalGaps with the
+default configuration as a closed function of the page width and the fragments: `l:r;l:r`, `-` =
+none), `c09.gapsold W F` (the same with the histogram loop as it was before 541d4a6).
 -/
 namespace Tabula.C09H
 open Tabula Tabula.Layout
@@ -256,7 +263,7 @@ def handle4 (op : String) (args : List String) : String :=
       let minKey := fun (l : List Frag) => ((sortNat (l.map (·.id))).head?.getD 0, l.length)
       let tolOf := fun (l : List Frag) => (t.lookup (minKey l)).getD d
       let mkHz := fun (brkOf : List (List Frag) → List (List Frag) → List Frag → List (List Frag) → Bool) =>
-        Heur.mk gaps minCW minLW (isSpanGo gaps spanThr) keepSpanGo tolOf preserveGo (rtl == "1") brkOf (fun _ _ => (1, 1))
+        Heur.mk gaps minCW minLW (isSpanGo gaps spanThr) keepSpanGo tolOf preserveGo (rtl == "1") brkOf 1 1
       let hz0 := mkHz (fun _ _ _ _ => false)
       let roLines := (hz0.readingOrder fs).lines
       let tbl := (roLines.map minKey).zip (bits.toList.map (· == '1'))
@@ -277,6 +284,23 @@ def handle4 (op : String) (args : List String) : String :=
       if all.isEmpty then "-" else "|".intercalate (all.map hexS)
     | none => "bad-op"
   | _, _ => "bad-op"
+
+def ratStr (r : Rat) : String := if r.den == 1 then toString r.num else s!"{r.num}/{r.den}"
+
+def gapsOut (gs : List Gap) : String :=
+  if gs.isEmpty then "-" else ";".intercalate (gs.map fun g => ratStr g.left ++ ":" ++ ratStr g.right)
+
+/-- the ops of the resource bounds -/
+def handle5 (op : String) (args : List String) : String :=
+  match op, args with
+  | "c09.preservex", [cw, lh0, f] => match parseRat cw, parseRat lh0, parseFrags f with
+    | some cw, some lh0, some fs => hexS (preserveLayoutGo cw lh0 fs) | _, _, _ => "bad-op"
+  | "c09.gaps", [w, f] => match parseRat w, parseFrags f with
+    | some w, some fs => gapsOut (findVerticalGaps 20 6 w fs) | _, _ => "bad-op"
+  | "c09.gapsold", [w, f] => match parseRat w, parseFrags f with
+    | some w, some fs => gapsOut (findVerticalGapsOld 20 6 w fs) | _, _ => "bad-op"
+  | _, _ => "bad-op"
+
 
 def handle (op : String) (args : List String) : String :=
   match op, args with
@@ -341,7 +365,9 @@ def handle (op : String) (args : List String) : String :=
     | some ps => hexS (joinParagraphsText ps) | none => "bad-op"
   | _, _ => match handle2 op args with
     | "bad-op" => match handle3 op args with
-      | "bad-op" => handle4 op args
+      | "bad-op" => match handle4 op args with
+        | "bad-op" => handle5 op args
+        | r => r
       | r => r
     | r => r
 
